@@ -1,8 +1,8 @@
 //go:build verif
 
-package histogram
+package histogram_test
 
-// C19 for Prio3Histogram. Generic machinery: vdaf/prio3/internal/verifc19 (overlay only); oracles: verifref/prio.
+// C19, exported-API units (package histogram_test: the compiler guarantees nothing unexported is named) for Prio3Histogram. Generic machinery: vdaf/prio3/internal/verifc19 (overlay only); oracles: verifref/prio.
 
 import (
 	"fmt"
@@ -10,19 +10,14 @@ import (
 
 	"github.com/cloudflare/circl/internal/verifmc"
 	"github.com/cloudflare/circl/internal/verifref/prio"
-	"github.com/cloudflare/circl/vdaf/prio3/internal/prio3"
+	"github.com/cloudflare/circl/vdaf/prio3/histogram"
 	"github.com/cloudflare/circl/vdaf/prio3/internal/verifc19"
 )
 
-// c19Evil shares an arbitrary encoded measurement with the real proof system.
-type c19Evil struct{ *flpHistogram }
-
-func (c19Evil) Encode(v Vec) (Vec, error) { return append(Vec{}, v...), nil }
-
-func c19Sys() *verifc19.Sys[uint64, []uint64, Vec, Fp] {
-	return &verifc19.Sys[uint64, []uint64, Vec, Fp]{
-		Make: func(i prio.Inst, n uint8) (verifc19.VDAF[uint64, []uint64, Vec, Fp], error) {
-			h, err := New(n, i.Length, i.Chunk, verifc19.Ctx)
+func c19Sys() *verifc19.Sys[uint64, []uint64, histogram.Vec, histogram.Fp] {
+	return &verifc19.Sys[uint64, []uint64, histogram.Vec, histogram.Fp]{
+		Make: func(i prio.Inst, n uint8) (verifc19.VDAF[uint64, []uint64, histogram.Vec, histogram.Fp], error) {
+			h, err := histogram.New(n, i.Length, i.Chunk, verifc19.Ctx)
 			if err != nil {
 				return nil, err
 			}
@@ -31,16 +26,9 @@ func c19Sys() *verifc19.Sys[uint64, []uint64, Vec, Fp] {
 			}
 			return h, nil
 		},
-		MakeEvil: func(i prio.Inst, n uint8) (verifc19.EvilSharder[Vec, Fp], error) {
-			p, err := prio3.New[c19Evil, Vec, []uint64, Vec, Fp, *Fp](c19Evil{newFlpHistogram(i.Length, i.Chunk)}, 4, n, verifc19.Ctx)
-			if err != nil {
-				return nil, err
-			}
-			return &p, nil
-		},
 		ToM:   func(m []uint64) uint64 { return m[0] },
 		FromA: func(a *[]uint64) []uint64 { return *a },
-		Order: new(Fp).Order(),
+		Order: new(histogram.Fp).Order(),
 	}
 }
 
